@@ -126,6 +126,9 @@ func TestSessCloseRace(t *testing.T) {
 			err2 := sess[target].Close() // runs to completion while the datagram waits at the gate
 			close(release)
 			armed.Store(false)
+			for i := 0; i < 8; i++ {
+				sess[target].SendOOB([]byte("late")) // out-of-band sends racing / following Close: one owner per buffer
+			}
 			w.Ev(map[string]any{"ev": "closerace", "target": target, "gated": gated, "paced": paced, "err": err2 != nil})
 			time.Sleep(time.Duration(20+rr.Intn(200)) * time.Millisecond) // more traffic reaches the closed session's peer / listener
 			for _, n := range []string{"cli", "srv"} {
